@@ -3,6 +3,7 @@ package main
 // G-ABBREV (C10), G-PAIR, G-EXPECT (C17).
 
 import (
+	"unicode"
 	"fmt"
 	"go/ast"
 	"go/constant"
@@ -845,128 +846,92 @@ func calleesOf(fn *ssa.Function) map[*ssa.Function]bool {
 }
 
 func (w *World) checkScannerPanics(r *Report, g *Grammar) {
-	isCurrLoad := func(v ssa.Value) bool {
-		ld, ok := v.(*ssa.UnOp)
-		if !ok || ld.Op != token.MUL {
-			return false
+	pos := w.pos(g.NextItem.Pos())
+	r.FuncsAnalysed[fnName(g.NextItem)] = true
+	// (a) a string literal cut off by the end of the input: propagate "the
+	// current character is a quote and the input ends after k more characters"
+	for _, q := range []rune{'"', '\''} {
+		bad := ""
+		n := 0
+		for _, k := range []int{1, 2, 3} {
+			for _, o := range w.scanFromEOF(g, q, k) {
+				if o.Cut || strings.Count(o.Text, string(q)) != 1 {
+					continue // a later character was decided to be the closing quote
+				}
+				n++
+				if !o.Panicked {
+					bad = fmt.Sprintf("with the input ending %d character(s) after the opening quote the scanner returns token %s", k-1, g.tokName(o.Tok))
+				}
+			}
 		}
-		fa, ok := ld.X.(*ssa.FieldAddr)
-		return ok && fieldOfAddr(fa) == g.CurrField
+		key := "unclosed-string:" + string(q)
+		switch {
+		case n == 0:
+			r.undec("G-EXPECT", key, pos, "the string scanner could not be followed")
+		case bad != "":
+			r.bad("G-EXPECT", key, pos, "the scanner does not panic when the input ends before the closing quote ("+bad+"): an expression cut inside a string is accepted")
+		default:
+			r.ok("G-EXPECT", key, pos, "end of input inside a string literal panics on every path")
+		}
 	}
-	// string scanner: the scanner method called in the quote cases: a
-	// must-consumer with a loop in which a failed nextChar leads to a panic
-	var strScan *ssa.Function
-	for _, c := range w.pkgCallees(g.NextItem) {
-		if c.Signature.Results().Len() == 1 {
-			if b, ok := c.Signature.Results().At(0).Type().(*types.Basic); ok && b.Kind() == types.String {
-				// starts by consuming (the opening quote)
-				if first := firstCallee(c); first == g.NextChar {
-					strScan = c
+	// (b) qualified names: started with a name character, no accepted token
+	// ends in a lone ':' and none has white space before a single ':'
+	var lone, spaced []string
+	npanic := 0
+	for _, o := range w.scanFrom(g, 'a') {
+		if o.Cut {
+			continue
+		}
+		t := o.Text
+		if o.Panicked {
+			if strings.Contains(t, ":") {
+				npanic++
+			}
+			continue
+		}
+		trimmed := strings.TrimRight(t, " ")
+		if strings.HasSuffix(trimmed, ":") && !strings.HasSuffix(trimmed, "::") {
+			lone = append(lone, t)
+		}
+		for i := 0; i+1 < len(t); i++ {
+			if t[i] == ' ' {
+				j := i
+				for j < len(t) && t[j] == ' ' {
+					j++
+				}
+				if j < len(t) && t[j] == ':' && !(j+1 < len(t) && t[j+1] == ':') {
+					spaced = append(spaced, t)
 				}
 			}
 		}
 	}
-	if strScan == nil {
-		r.bad("ANCHOR", "G-EXPECT:string", "", "string scanner not found")
+	switch {
+	case len(lone) > 0:
+		r.bad("G-EXPECT", "qname-lone-colon", pos, fmt.Sprintf("the scanner accepts a name followed by ':' and nothing that continues a qualified name (consumed %q): a malformed qualified name compiles", dedup(lone)))
+	case len(spaced) > 0:
+		r.bad("G-EXPECT", "qname-space-colon", pos, fmt.Sprintf("the scanner accepts white space between a name and a single ':' (consumed %q, ' ' = white space, '?' = any other character): `ns :a` compiles as a qualified name", dedup(spaced)))
+	case npanic == 0:
+		r.bad("G-EXPECT", "qname-sites", pos, "no path of the scanner panics after a ':' following a name")
+	default:
+		r.ok("G-EXPECT", "qname", pos, fmt.Sprintf("every accepted token that contains ':' is name:name, name:*, name:: or name ::; %d malformed continuations panic", npanic))
+	}
+	// (c) a character that starts no token panics: no path returns normally
+	// without having consumed anything
+	var silent []string
+	for c := rune(1); c < 128; c++ {
+		if unicode.IsSpace(c) {
+			continue
+		}
+		for _, o := range w.scanFrom(g, c) {
+			if !o.Cut && !o.Panicked && o.Text == "" {
+				silent = append(silent, fmt.Sprintf("%q", c))
+			}
+		}
+	}
+	if len(silent) == 0 {
+		r.ok("G-EXPECT", "invalid-character", pos, "every ASCII character either starts a token or panics")
 	} else {
-		r.FuncsAnalysed[fnName(strScan)] = true
-		ok := false
-		var at ssa.Instruction
-		for _, b := range strScan.Blocks {
-			ifi := blockIf(b)
-			if ifi == nil {
-				continue
-			}
-			c, isCall := ifi.Cond.(*ssa.Call)
-			if !isCall || c.Call.StaticCallee() != g.NextChar {
-				continue
-			}
-			at = ifi
-			// false edge (end of input) must end in panic
-			fe := b.Succs[1]
-			if _, isP := fe.Instrs[len(fe.Instrs)-1].(*ssa.Panic); isP {
-				ok = true
-			}
-		}
-		if ok {
-			r.ok("G-EXPECT", "unclosed-string", w.instrPos(at), "end of input inside a string literal panics")
-		} else {
-			r.bad("G-EXPECT", "unclosed-string", w.pos(strScan.Pos()), "the string scanner does not panic when the input ends before the closing quote: an expression cut inside a string is accepted")
-		}
-	}
-	// malformed QName: after a ':' has been consumed following a name
-	n := 0
-	for _, b := range g.NextItem.Blocks {
-		ifi := blockIf(b)
-		if ifi == nil {
-			continue
-		}
-		bo, ok := ifi.Cond.(*ssa.BinOp)
-		if !ok || bo.Op != token.EQL || !isCurrLoad(bo.X) {
-			continue
-		}
-		if k, ok := constInt(bo.Y); !ok || k != ':' {
-			continue
-		}
-		// only first-colon tests: the true successor consumes and tests ':' again
-		t := b.Succs[0]
-		second := false
-		for _, in := range t.Instrs {
-			if c, ok := in.(*ssa.Call); ok && c.Call.StaticCallee() == g.NextChar {
-				second = true
-			}
-		}
-		if !second || blockIf(t) == nil {
-			continue
-		}
-		tbo, ok := blockIf(t).Cond.(*ssa.BinOp)
-		if !ok || !isCurrLoad(tbo.X) {
-			continue
-		}
-		if k, _ := constInt(tbo.Y); k != ':' {
-			continue
-		}
-		n++
-		match := func(ifi *ssa.If) (int, bool) {
-			switch c := ifi.Cond.(type) {
-			case *ssa.BinOp:
-				if c.Op == token.EQL && isCurrLoad(c.X) {
-					return 0, true
-				}
-			case *ssa.Call:
-				if len(c.Call.Args) == 1 && isCurrLoad(c.Call.Args[0]) {
-					return 0, true
-				}
-			}
-			return 0, false
-		}
-		okp, at := g.noMatchEndsInPanic(w, t, match)
-		key := fmt.Sprintf("qname-colon%d", n)
-		if okp {
-			r.ok("G-EXPECT", key, w.instrPos(ifi), "a ':' after a name that is followed by neither ':' nor a name nor '*' panics")
-		} else {
-			r.bad("G-EXPECT", key, w.instrPos(at.Instrs[len(at.Instrs)-1]), "a malformed qualified name (name followed by ':' and something that is not a name) is accepted by the scanner")
-		}
-	}
-	if n < 2 {
-		r.bad("G-EXPECT", "qname-sites", w.pos(g.NextItem.Pos()), fmt.Sprintf("found %d colon-after-name sites in the scanner, expected 2 (\"foo:\" and \"foo :\")", n))
-	}
-	// unknown character: the default of the rune switch panics
-	ok2, at := g.noMatchEndsInPanic(w, g.NextItem.Blocks[0], func(ifi *ssa.If) (int, bool) {
-		switch c := ifi.Cond.(type) {
-		case *ssa.BinOp:
-			if c.Op == token.EQL {
-				return 0, true
-			}
-		case *ssa.Call:
-			return 0, true
-		}
-		return 0, false
-	})
-	if ok2 {
-		r.ok("G-EXPECT", "invalid-character", w.instrPos(at.Instrs[len(at.Instrs)-1]), "a character that starts no token panics")
-	} else {
-		r.bad("G-EXPECT", "invalid-character", w.instrPos(at.Instrs[len(at.Instrs)-1]), "a character that starts no token does not end in a panic")
+		r.bad("G-EXPECT", "invalid-character", pos, fmt.Sprintf("for the characters %v the scanner returns without consuming anything and without panicking", dedup(silent)))
 	}
 }
 
